@@ -214,7 +214,11 @@ def checkLimit (j : Json) : Except String Verdict := do
       match last with
       | some inb => st := limitApply port st inb
       | none => pure ()
-    | "install" => st := limitInstall st
+    | "install" =>
+      st := limitInstall st
+      if jBoolD obs "noUpdateControl" false then
+        mm := mm <|> some "install: the limiter's option carries no UpdateControl (model: the hand-over function is part of the option for good)"
+        sf := sf <|> some "C18.every_change_pushed: when the server started, the limiter's option carried no UpdateControl any more (it had been there at creation): the running server's limiter is never connected and every later change of the inbound listener is lost"
     | "rejected" => pure ()       -- a response that was NACKed: no step of the model, nothing may change
     | "update" =>
       let inb ← match jObj? e "inbound" with
